@@ -204,9 +204,8 @@ type tailBuf struct {
 
 func (t *tailBuf) Write(p []byte) (int, error) {
 	t.mu.Lock()
-	t.b = append(t.b, p...)
-	if len(t.b) > 8192 {
-		t.b = t.b[len(t.b)-8192:]
+	if len(t.b) < 3000 { // keep the head: the fatal error line comes first, goroutine dumps follow
+		t.b = append(t.b, p...)
 	}
 	t.mu.Unlock()
 	return len(p), nil
@@ -287,9 +286,10 @@ func main() {
 	os.MkdirAll(scratch, 0o755)
 
 	type job struct {
-		t   task
-		res *result
-		bad string // worker death description
+		t       task
+		res     *result
+		bad     string // worker death description
+		culprit string
 	}
 	runAll := func(jobs []*job, timeout time.Duration) {
 		ch := make(chan *job)
@@ -335,6 +335,7 @@ func main() {
 					if len(tail) > 1500 {
 						tail = tail[:1500]
 					}
+					j.culprit = culprit
 					j.bad = fmt.Sprintf("case=%s stderr=%s", culprit, tail)
 				}
 			}(i)
@@ -350,8 +351,12 @@ func main() {
 	}
 
 	// 1. plan: number of values / weight per type
+	only := os.Getenv("C20_ONLY") // debugging aid: restrict to types whose name contains this (run is then not exhaustive)
 	var plan []*job
 	for i := range regs {
+		if only != "" && !strings.Contains(regs[i].name, only) {
+			continue
+		}
 		plan = append(plan, &job{t: task{Op: "plan", Type: i, NP: 1, Thorough: thorough}})
 	}
 	runAll(plan, 10*time.Minute)
@@ -363,7 +368,8 @@ func main() {
 	if thorough {
 		target = 30_000_000
 	}
-	for i, pj := range plan {
+	for _, pj := range plan {
+		i := pj.t.Type
 		if pj.res == nil {
 			if pj.bad != "" {
 				jobs = append(jobs, pj) // report below
@@ -412,7 +418,11 @@ func main() {
 	for _, j := range jobs {
 		reg := regs[j.t.Type]
 		if j.bad != "" {
-			r.Violation(fmt.Sprintf("worker-died|%s|%s", reg.name, j.t.Op), map[string]any{"task": j.t, "info": j.bad})
+			k := j.culprit
+			if k == "" {
+				k = reg.name + "|" + j.t.Op
+			}
+			r.Violation("worker-died|"+k, map[string]any{"task": j.t, "info": j.bad})
 		}
 		if j.res == nil {
 			skipped++
@@ -508,7 +518,7 @@ func main() {
 	if len(structDifs) > 8 {
 		structDifs = structDifs[:8]
 	}
-	exhaustive := skipped == 0 && !r.Capped()
+	exhaustive := skipped == 0 && !r.Capped() && only == ""
 	depth, k := tierParams(thorough)
 	r.Assumptions = []string{
 		"values compared with amino.DeepEqual semantics (equal canonical reflect encoding); nil vs empty slice, unexported fields and time zones are therefore not distinguished",
